@@ -16,7 +16,7 @@ import (
 )
 
 func genArgSpec(r gen.Rand) *interp.ArgSpec {
-	kinds := []string{"nil", "int", "string", "struct", "ptr", "ints", "map"}
+	kinds := []string{"nil", "int", "string", "struct", "ptr", "ints", "map", "nilptr"}
 	a := &interp.ArgSpec{NShard: r.Pick(1, 2, 3, 5), A: r.Intn(1000) - 500, S: []string{"", "x", "héllo \"quoted\"", strings.Repeat("long", 50)}[r.Intn(4)],
 		I: kinds[r.Intn(len(kinds))], J: kinds[r.Intn(len(kinds))]}
 	switch r.Intn(4) {
@@ -69,12 +69,19 @@ func GenC16(seed uint64, i int) *world.Case {
 	cfg.SortCanary = 0
 	cfg.Parallelism = r.Pick(2, 4, 8)
 	cfg.Procs = r.Pick(1, 2)
-	c := &world.Case{Format: 1, Property: "C16", Seed: s, Config: cfg, Oracle: world.Oracle{Rows: true, Liveness: true, NoRepeat: true, Graph: true}}
+	c := &world.Case{Format: 1, Property: "C16", Seed: s, Config: cfg, Oracle: world.Oracle{Rows: true, Liveness: true, NoRepeat: true, Graph: true, Capacity: cfg.Executor == "cluster"}}
 	switch x := r.Intn(10); {
 	case x < 5:
 		// Plain argument lists, several invocations in one session.
 		for k := 0; k < 1+r.Intn(3); k++ {
 			c.Script = append(c.Script, world.Step{Op: "runargs", ID: fmt.Sprintf("a%d", k), Variant: "args", ArgSpec: genArgSpec(r), MustSucceed: true})
+		}
+		if cfg.Executor == "cluster" && r.Chance(0.4) {
+			// A transient network error while an invocation is shipped (the request
+			// or the reply of a Worker.Compile is lost): the call is retried, and
+			// the worker must still receive the invocation intact.
+			c.Faults = append(c.Faults, &simnet.Fault{At: simnet.Match{Point: r.PickS("send", "reply", "reply"), Method: "Worker.Compile", Occ: 1 + r.Intn(3)}, Do: "drop"})
+			c.Oracle.NoRepeat = false
 		}
 	case x < 7 && r.Chance(0.5):
 		// A Result reachable both directly and through another Result argument,
